@@ -16,7 +16,11 @@ LEVEL_TEXT = ("Proof: four children partition their parent (half-open, west/sout
               "_find_location returns the first containing cell, the unique one for prefix-free keys, none otherwise; "
               "corner/edge ownership; areas add up to the band area for any sin-latitude function. Tied to the code by "
               "a correspondence on leaf lists, counts, located indices, bounds and areas over single-resolution grids, "
-              "catalog-refined grids, random key sets and the shipped California grid.")
+              "catalog-refined grids, random key sets and the shipped California grid. Cartesian view (get_cartesian, "
+              "spatial_counts(cartesian=True)): entry (j,i) is the value of the cell containing the lattice point (i-th "
+              "distinct west edge, j-th distinct south edge); on prefix-free grids every cell's value sits at its own "
+              "south-west corner; it raises exactly when a lattice point lies in no cell and never on a grid that covers "
+              "the domain (proved for every from_catalog and single-resolution grid).")
 LEVEL_NOTE = ("Web-Mercator latitude is abstract (any strictly decreasing function); mercantile is trusted to compute tile "
               "edges as a function of the dyadic coordinate only (shared-edge bit identity re-checked every run). The model "
               "receives a point's latitude as the tile row it falls in at the deepest level, found by float comparisons "
@@ -34,7 +38,11 @@ THEOREMS = ["Quadtree.geo_membership", "Quadtree.lon_bounds_exact", "Quadtree.ro
             "Quadtree.single_resolution_prefix_free", "Quadtree.from_catalog_locate",
             "Quadtree.single_resolution_complete",
             "Quadtree.corner_ownership", "Quadtree.area_additive", "Quadtree.area_from_catalog",
-            "Quadtree.area_single_resolution"]
+            "Quadtree.area_single_resolution",
+            # Cartesian view (Properties/C17_Cartesian.lean)
+            "Quadtree.cartesian_axes", "Quadtree.cartesian_entry", "Quadtree.cartesian_ok_iff",
+            "Quadtree.cartesian_error_no_cell", "Quadtree.cartesian_places_cells", "Quadtree.cartesian_total_of_cover",
+            "Quadtree.cartesian_total_from_catalog", "Quadtree.cartesian_total_single_resolution"]
 TRUSTED = ["Lean 4.33 kernel", "axioms: propext, Classical.choice, Quot.sound at most",
            "mercantile 1.2.1: quadkey_to_tile is the bit interleaving modelled by tileX/tileY; bounds().west/east equal "
            "-180+360*X/2^z exactly (checked on every tile of every generated grid); the latitude of a tile edge depends on "
@@ -49,7 +57,11 @@ RULE = ("grids: from_single_resolution(z) z=1..7 (8 in thorough), from_catalog o
         "from_quadkeys, the shipped California zoom-12 grid; queries: tile corners, edge midpoints, interior points, "
         "one-ulp neighbours of edges, lon +-180, lat at and beyond +-85.0511287798066; a case (grid or grid x query "
         "batch) is non-trivial when the grid has cells at >= 2 depths or >= 16 cells and the batch has a point on a "
-        "tile edge; distinct by (grid construction parameters, batch)")
+        "tile edge; distinct by (grid construction parameters, batch); the Cartesian view of every grid with "
+        "(#distinct west edges x #distinct south edges x #cells) <= 3e6 (2e7 thorough) incl. gridded forecasts on it; "
+        "ordered lookup sequences on one region object (a point inside tile A, then points exactly on A's east / north "
+        "edge and corners, as repeated scalar calls and as list / ndarray calls, forwards, reversed, shuffled): the cell of "
+        "a point must be its per-point containment whatever was looked up before")
 
 R_KM = 6371.0
 LATMAX = 85.0511287798066
@@ -356,11 +368,171 @@ def check_refinement(run, drv, pend, g):
                  [f"{k}:{int(v)}" for k, v in zip(qk, num)]))
 
 
+def _expected_cell(b, lon, lat):
+    inside = numpy.nonzero((b[:, 0] <= lon) & (lon < b[:, 2]) & (b[:, 1] <= lat) & (lat < b[:, 3]))[0]
+    return int(inside[0]) if inside.size else None
+
+
+def issue(r, pts, mode):
+    """one ordered sequence of lookups on ONE region object; returns per-mode canonical result"""
+    if mode == "scalar":
+        out = []
+        for lon, lat in pts:
+            got = r.get_index_of(float(lon), float(lat))
+            out.append(None if isinstance(got, numpy.ndarray) and got.size == 0 else int(got))
+        return out
+    lons, lats = [float(p[0]) for p in pts], [float(p[1]) for p in pts]
+    if mode == "ndarray":
+        lons, lats = numpy.array(lons), numpy.array(lats)
+    return [int(v) for v in numpy.asarray(r.get_index_of(lons, lats)).tolist()]
+
+
+def check_sequence(run, drv, pend, g, pts, mode, tag):
+    """the cell of a point must not depend on which points were looked up before it on the same region object"""
+    r = g.region
+    b = numpy.asarray(r.bounds, dtype=float)
+    exp = [_expected_cell(b, lon, lat) for lon, lat in pts]
+    case = _case(g, check="order", points=[[hexs(a), hexs(c)] for a, c in pts], mode=mode, tag=tag)
+    try:
+        got = issue(r, pts, mode)
+    except Exception as ex:
+        run.oracle_failure(case, f"get_index_of raised {type(ex).__name__}: {ex}")
+        return
+    want = exp if mode == "scalar" else [v for v in exp if v is not None]
+    run.count("sequence:" + mode)
+    if got != want:
+        d = [j for j, (a, c) in enumerate(zip(got, want)) if a != c][:3]
+        run.oracle_failure(dict(case, first_diff=d), f"{mode} lookups issued in this order give {got[:12]}, per-point containment "
+                                                     f"gives {want[:12]} (the cell of a point depends on the lookups before it)")
+    units = [to_unit(lon, lat, g.D) for lon, lat in pts]
+    ks = ",".join(g.keys) if g.keys else "-"
+    op = "c17_locate" if mode == "scalar" else "c17_getindex"
+    pend.append(("locate" if mode == "scalar" else "getindex", g, dict(case, op=op), drv.ask(f"{op} {ks} {pts_arg(units)}"), got))
+
+
+def check_order(run, drv, pend, g, rng, ncells):
+    """ordered sequences aimed at state kept between lookups: a point inside tile A, then points exactly on A's east /
+    north edge and corners (owned by the neighbours that edge opens) — as repeated scalar calls, as list / ndarray calls,
+    forwards, backwards and shuffled"""
+    keys = g.keys
+    E, _ = edges(g.D)
+    n = 0
+    for k in (rng.sample(keys, ncells) if len(keys) > ncells else list(keys)):
+        X, Y, z = key_xy(k)
+        sh = g.D - z
+        w, e = -180 + 360 * X / 2 ** z, -180 + 360 * (X + 1) / 2 ** z
+        n_, s_ = E[Y << sh], E[(Y + 1) << sh]
+        mx, my = (w + e) / 2, (n_ + s_) / 2
+        a = (mx, my)
+        edge_pts = [(e, my), (mx, n_), (e, n_), (e, s_), (w, n_)]
+        seq = []
+        for p in edge_pts:
+            seq += [a, p]                       # every edge point directly after a hit inside A
+        tag = f"order:{k}"
+        check_sequence(run, drv, pend, g, seq, "scalar", tag)
+        check_sequence(run, drv, pend, g, [edge_pts[0], a, edge_pts[0], edge_pts[0], a, edge_pts[1], edge_pts[1]], "scalar", tag + ":repeat")
+        check_sequence(run, drv, pend, g, seq, rng.choice(["list", "ndarray"]), tag)
+        check_sequence(run, drv, pend, g, list(reversed(seq)), rng.choice(["list", "ndarray"]), tag + ":reversed")
+        sq = list(seq)
+        rng.shuffle(sq)
+        check_sequence(run, drv, pend, g, sq, rng.choice(["scalar", "list", "ndarray"]), tag + ":shuffled")
+        n += 1
+    multi = len(set(len(k) for k in keys)) > 1 or len(keys) >= 16
+    run.case(_case(g, check="order", ncells=n), ("order", g.kind, _pkey(g)) if multi else None)
+
+
+def check_cartesian(run, drv, pend, g, partition_expected, prefix_free, limit):
+    """get_cartesian / spatial_counts(cartesian=True): value of the first cell containing each lattice point
+    (distinct west edge, distinct south edge); ValueError exactly when a lattice point lies in no cell"""
+    import contextlib
+    import io
+    r, keys = g.region, g.keys
+    b = numpy.asarray(r.bounds, dtype=float)
+    n = len(keys)
+    xs = sorted(set(b[:, 0].tolist()))
+    ys = sorted(set(b[:, 1].tolist()))
+    if len(xs) * len(ys) * n > limit:
+        run.count("cartesian-skipped-too-large")
+        return
+    case = _case(g, check="cartesian")
+    data = numpy.arange(n, dtype=float) * 2.0 + 1.0
+    try:
+        with contextlib.redirect_stdout(io.StringIO()):
+            got = numpy.asarray(r.get_cartesian(data))
+        impl = [[int((v - 1) / 2) for v in row] for row in got.tolist()]
+        ixs, iys = [float(v) for v in r.xs], [float(v) for v in r.ys]
+    except Exception as ex:
+        impl, exc = "E", type(ex).__name__
+    # exact expectation by brute force on the implementation's own bounds
+    exp = []
+    for y in ys:
+        row = []
+        for x in xs:
+            inside = numpy.nonzero((b[:, 0] <= x) & (x < b[:, 2]) & (b[:, 1] <= y) & (y < b[:, 3]))[0]
+            row.append(int(inside[0]) if inside.size else None)
+        exp.append(row)
+    gap = any(v is None for row in exp for v in row)
+    run.case(case, ("cartesian", g.kind, _pkey(g)) if (len(set(len(k) for k in keys)) > 1 or gap) else None)
+    run.count("cartesian:" + ("raises" if impl == "E" else "ok"))
+    if partition_expected and gap:
+        run.oracle_failure(case, "a lattice point (west edge, south edge) of a grid covering the domain lies in no cell")
+    if impl == "E":
+        if not gap:
+            run.oracle_failure(case, f"get_cartesian raised {exc} although every lattice point lies in a cell")
+    else:
+        if gap:
+            run.oracle_failure(case, "get_cartesian returned although a lattice point lies in no cell")
+        elif impl != exp:
+            bad = [(j, i) for j in range(len(exp)) for i in range(len(xs)) if j >= len(impl) or i >= len(impl[j]) or impl[j][i] != exp[j][i]][:3]
+            run.oracle_failure(dict(case, at=bad), f"get_cartesian differs from the cell containing the lattice point at (row, col) {bad}")
+        if ixs != xs or iys != ys:
+            run.oracle_failure(case, "xs / ys are not the distinct west / south edges in ascending order")
+        if prefix_free and not gap and impl == exp:
+            xi = {x: i for i, x in enumerate(xs)}
+            yi = {y: j for j, y in enumerate(ys)}
+            for k in range(n):
+                if impl[yi[float(b[k, 1])]][xi[float(b[k, 0])]] != k:
+                    run.oracle_failure(dict(case, cell=keys[k]), f"the value of cell {keys[k]} is not at the position of its south-west corner")
+                    break
+        # gridded data sets on this region agree with the per-cell values
+        if not gap and n <= 300:
+            from csep.core.forecasts import GriddedForecast, GriddedDataSet
+            try:
+                d2 = numpy.column_stack((data, numpy.arange(n, dtype=float)))
+                with contextlib.redirect_stdout(io.StringIO()):
+                    f = GriddedForecast(data=d2, region=r, magnitudes=numpy.array([4.0, 5.0]))
+                    c2 = numpy.asarray(f.spatial_counts(cartesian=True))
+                    per = numpy.asarray(f.spatial_counts())
+                    c1 = numpy.asarray(GriddedDataSet(data=data.copy(), region=r).spatial_counts(cartesian=True))
+                want2 = numpy.array([[per[k] for k in row] for row in exp])
+                want1 = numpy.array([[data[k] for k in row] for row in exp])
+                if not numpy.array_equal(c2, want2) or not numpy.array_equal(c1, want1):
+                    run.oracle_failure(case, "spatial_counts(cartesian=True) differs from the per-cell values at the lattice points")
+                run.count("cartesian:forecast")
+            except Exception as ex:
+                run.oracle_failure(case, f"spatial_counts(cartesian=True) raised {type(ex).__name__}: {ex}")
+    ks = ",".join(keys) if keys else "-"
+    pend.append(("cartesian", g, case, drv.ask(f"c17_cartesian {ks}"), (impl, xs, ys)))
+
+
 def flush(run, drv, pend):
     out = drv.run()
     for what, g, case, i, impl in pend:
         o = out[i]
-        if what == "refine":
+        if what == "cartesian":
+            rows, xs, ys = impl
+            if o.startswith("E"):
+                if rows != "E":
+                    run.mismatch(dict(case, op="c17_cartesian"), str(rows)[:200], o)
+                continue
+            mx, my, mr = o.split("|")
+            E, _ = edges(g.D)
+            mxs = [Fraction(t) * 360 - 180 for t in mx.split(",")]
+            mys = [E[int(Fraction(t) * (1 << g.D))] for t in my.split(",")]
+            mrows = [[int(t) for t in row.split(",")] for row in mr.split(";")]
+            if rows == "E" or mrows != rows or mxs != [Fraction(x) for x in xs] or mys != ys:
+                run.mismatch(dict(case, op="c17_cartesian"), str(rows)[:300], o[:300])
+        elif what == "refine":
             # the order of the cells is not part of the property: compare as sorted lists
             model = [] if o == "-" else o.split(",")
             if sorted(model) != sorted(impl):
@@ -511,8 +683,10 @@ def gen_keyset(rng, nested=False):
     return leaves
 
 
-def run_grid(run, drv, pend, g, rng, budget, partition_expected, prefix_free=True):
+def run_grid(run, drv, pend, g, rng, budget, partition_expected, prefix_free=True, cart_limit=3e6):
     check_structure(run, drv, pend, g, partition_expected)
+    check_order(run, drv, pend, g, rng, 12 if budget <= 300 else 24)
+    check_cartesian(run, drv, pend, g, partition_expected, prefix_free, cart_limit)
     pts = gen_queries(rng, g, budget)
     # batches keep replays small
     B = 64
@@ -523,6 +697,7 @@ def run_grid(run, drv, pend, g, rng, budget, partition_expected, prefix_free=Tru
 def run(run, rng, tier):
     drv, pend = Driver(), []
     thorough = tier == "thorough"
+    CL = 2e7 if thorough else 3e6     # size limit (lattice points x cells) of the Cartesian-view check
     # corpus first
     cdir = os.path.join(os.path.dirname(os.path.dirname(os.path.abspath(__file__))), "corpus", "C17")
     if os.path.isdir(cdir):
@@ -539,7 +714,7 @@ def run(run, rng, tier):
             run.oracle_failure(_case(g, check="single"), f"from_single_resolution({z}) is not the 4^{z} keys of length {z}")
         pend.append(("refine", g, _case(g, check="single-keys", op="c17_single"), drv.ask(f"c17_single {z}"), g.keys))
         budget = (len(g.keys) * 17 + 200) if z <= (5 if thorough else 4) else (1500 if thorough else 250)
-        run_grid(run, drv, pend, g, rng, budget, True)
+        run_grid(run, drv, pend, g, rng, budget, True, cart_limit=CL)
     flush(run, drv, pend)
     drv, pend = Driver(), []
     # 2. catalog-driven refinement
@@ -555,7 +730,7 @@ def run(run, rng, tier):
         g = _build("catalog", dict(threshold=thr, zoom=zoom, events=[[hexs(a), hexs(b)] for a, b in ev], gen=kind))
         run.count("grid-catalog-" + kind)
         check_refinement(run, drv, pend, g)
-        run_grid(run, drv, pend, g, rng, 500 if thorough else 120, True)
+        run_grid(run, drv, pend, g, rng, 500 if thorough else 120, True, cart_limit=CL)
         # the events themselves as queries: each is located in the leaf that counted it
         if ev:
             check_queries(run, drv, pend, g, ev[:64], True, True, "events")
@@ -569,7 +744,7 @@ def run(run, rng, tier):
         run.count("grid-quadkeys-nested" if nested else "grid-quadkeys")
         sk = sorted(set(keys))
         pf = len(set(keys)) == len(keys) and not any(sk[j + 1].startswith(sk[j]) for j in range(len(sk) - 1))
-        run_grid(run, drv, pend, g, rng, 300 if thorough else 150, False, prefix_free=pf)
+        run_grid(run, drv, pend, g, rng, 300 if thorough else 150, False, prefix_free=pf, cart_limit=CL)
     # 4. the shipped California grid
     try:
         g = _build("california", {})
@@ -579,7 +754,7 @@ def run(run, rng, tier):
     if g is not None:
         run.count("grid-california")
         run.extra["california_cells"] = len(g.keys)
-        run_grid(run, drv, pend, g, rng, 3000 if thorough else 200, False)
+        run_grid(run, drv, pend, g, rng, 3000 if thorough else 200, False, cart_limit=CL)
     flush(run, drv, pend)
 
 
@@ -592,6 +767,14 @@ def replay(run, payload, _drv=None):
     sk = sorted(set(keys))
     pf = len(set(keys)) == len(keys) and not any(sk[j + 1].startswith(sk[j]) for j in range(len(sk) - 1))
     check_structure(run, drv, pend, g, partition)
+    if case.get("check") == "cartesian":
+        check_cartesian(run, drv, pend, g, partition, pf, 2e7)
+    if case.get("check") == "order" and "points" in case:
+        check_sequence(run, drv, pend, g, [tuple(float.fromhex(v) for v in p) for p in case["points"]], case.get("mode", "scalar"),
+                       "replay")
+        if not _drv:
+            flush(run, drv, pend)
+        return
     if case["kind"] == "catalog":
         check_refinement(run, drv, pend, g)
     pts = []
